@@ -63,7 +63,7 @@ func init() {
 	})
 	register(&Prop{
 		ID:    "C02",
-		Rules: []func(*core.Ctx){RFunnel, RQuick, RQuickOmit, RRtlFilter, ROrigin, RMask, RStepDecode},
+		Rules: []func(*core.Ctx){RFunnel, RQuick, RQuickOmit, RRtlFilter, RFFFDFilter, ROrigin, RMask, RStepDecode},
 		Explanation: "All entry points reach the one scan funnel (R-FUNNEL, call graph); the capture-free quick program is active only where the returned match is merely nil-tested or read for position (R-QUICK, SSA def-use), and the liveness scan that builds it masks opcode flags (R-MASK); the left-to-right raw-string filter is never consulted for right-to-left programs (R-RTLFILTER, dominance); a filter candidate never becomes the \\G origin (R-ORIGIN, interprocedural taint). " +
 			"These are structural preconditions for the entry points to agree; that scan returns the same result for the same arguments, the index conversions and the Replace/Split folds are decided elsewhere or not at all.",
 	})
